@@ -424,10 +424,7 @@ pub fn index_case(case: u64, rng: &mut Rng, rep: &mut Report, deep: bool) {
                 let at = rng.usize_below(d.vals.len() + 1);
                 d.vals.insert(at, (sch.slot("u_so"), MV::U64(id)));
             }
-            rep.observe("doc_profile", d.profile);
-            for (_, v) in &d.vals {
-                rep.observe("value_kind", v.kind_name());
-            }
+            observe_kinds(rep, &d);
             total_bytes += d.est_len(sch);
             if let Err(e) = writer.add_document(d.to_tdoc(sch)) {
                 rep.violation("api-error:add_document", json!({"error": e.to_string(), "profile": d.profile}));
